@@ -146,7 +146,11 @@ func listTok(s string) []string {
 	return strings.Split(s, ",")
 }
 
-func callOne(f []string) string {
+// argsOptions: within one case, calls whose argument tokens are identical share ONE CallArgs option value (an option is a
+// reusable value: using it with one callable must not influence its use with another)
+type argsOptions map[string]bigbuff.CallOption
+
+func callOne(f []string, shared argsOptions) string {
 	if len(f) != 7 {
 		return "skipped"
 	}
@@ -215,7 +219,12 @@ func callOne(f []string) string {
 		}
 		return retVals
 	})
-	opts := []bigbuff.CallOption{bigbuff.CallArgs(args...)}
+	argsOpt, reused := shared[f[4]]
+	if !reused {
+		argsOpt = bigbuff.CallArgs(args...)
+		shared[f[4]] = argsOpt
+	}
+	opts := []bigbuff.CallOption{argsOpt}
 	var targets []reflect.Value // pointers whose Elem we inspect afterwards
 	var sliceTarget reflect.Value
 	switch f[5] {
@@ -344,10 +353,11 @@ func callOne(f []string) string {
 }
 
 func execCallable(t *trace, script []string) {
+	shared := argsOptions{}
 	for _, line := range script {
 		f := strings.Fields(line)
 		if len(f) > 0 && f[0] == "call" {
-			t.Line(line, callOne(f))
+			t.Line(line, callOne(f, shared))
 		}
 	}
 }
@@ -495,6 +505,27 @@ func genCallable(r *rng.R, tier string, i int) []string {
 			v = "1"
 		}
 		s = append(s, fmt.Sprintf("call %s %s %s %s %s %s", j(params), v, j(rets), j(args), mode, j(targets)))
+		if len(args) > 0 && r.Chance(30) {
+			// a twin call: the SAME argument list (hence the same CallArgs option value in the harness) with another signature
+			p2 := append([]string(nil), params...)
+			switch r.Intn(4) {
+			case 0:
+				if len(p2) > 0 {
+					p2 = p2[:len(p2)-1]
+				}
+			case 1:
+				p2 = append(p2, allTys[r.Intn(len(allTys))])
+			case 2:
+				if len(p2) > 0 {
+					p2[r.Intn(len(p2))] = allTys[r.Intn(len(allTys))]
+				}
+			default:
+				for k := range p2 {
+					p2[k] = concreteTys[r.Intn(len(concreteTys))]
+				}
+			}
+			s = append(s, fmt.Sprintf("call %s %s %s %s %s %s", j(p2), v, j(rets), j(args), mode, j(targets)))
+		}
 	}
 	return s
 }
